@@ -21,6 +21,7 @@ type DictQuery struct {
 	Auto   int          `json:"auto,omitempty"` // 0 none, 1 prefix, 2 accept-all, 3 contains-byte
 	AutoP  model.Bytes  `json:"auto_p,omitempty"`
 	Probes []int        `json:"probes,omitempty"` // indices into vocab + [absent]: Contains / PostingsList lookups
+	Stop   int          `json:"stop,omitempty"`   // >0: the enumeration is abandoned after Stop entries and the iterator closed
 }
 
 type DictCase struct {
@@ -124,6 +125,9 @@ func genDictCase(t *rapid.T, prop string) *Case {
 			q.AutoP = model.Bytes(v)
 		} else if q.Auto == 3 {
 			q.AutoP = model.Bytes{rapid.SampledFrom([]byte{'a', 'b', 0, 0xfe, 's', '1'}).Draw(t, "byte")}
+		}
+		if rapid.IntRange(0, 3).Draw(t, "abandon") == 0 {
+			q.Stop = rapid.IntRange(1, 3).Draw(t, "stop")
 		}
 		np := rapid.IntRange(0, 4).Draw(t, "nprobes")
 		for j := 0; j < np; j++ {
@@ -231,15 +235,31 @@ func runDictCase(c *Case, env *Env) *Result {
 					break
 				}
 				got = append(got, model.TermObs{Term: model.Bytes(e.Term()), Count: e.Count()})
+				if q.Stop > 0 && len(got) >= q.Stop {
+					break
+				}
 				if len(got) > 1<<20 {
 					f = mismatch("C08", "dictionary", "termination", where+": iterator does not terminate")
 					return
 				}
 			}
-			// nil must stay nil
-			if e, err := it.Next(); e != nil || err != nil {
-				f = mismatch("C08", "dictionary", "end", fmt.Sprintf("%s: Next after the end returned %v, %v", where, e, err))
-				return
+			if q.Stop > 0 && len(got) >= q.Stop {
+				// abandoned: the caller is done with this iterator
+				if err := it.Close(); err != nil {
+					f = apiFail("C08", "dictionary", "DictionaryIterator.Close", nil, err)
+					return
+				}
+				res.probe("enumeration-abandoned-and-closed")
+				if len(want) > q.Stop {
+					want = want[:q.Stop]
+				}
+			} else {
+				// nil must stay nil
+				if e, err := it.Next(); e != nil || err != nil {
+					f = mismatch("C08", "dictionary", "end", fmt.Sprintf("%s: Next after the end returned %v, %v", where, e, err))
+					return
+				}
+				_ = it.Close()
 			}
 			for i := 0; i < len(got) || i < len(want); i++ {
 				switch {
